@@ -174,9 +174,55 @@ def run(ctx):
         res.sample({"history": checks[0][0], "listings(time_ms, version)": checks[0][1]})
         res.sample({"history": checks[-1][0], "listings(time_ms, version)": checks[-1][1]})
     res.degraded = sorted(set(pyg.degraded))
+    _aliases(ctx, res)
     return res
 
 
 def replay(data):
     print(data["violation"]["replay"])
     return 0
+
+
+def _aliases(ctx, res):
+    """One directory reachable under several selectors (a link to itself inside it, a sibling link): a listing cached through one
+    selector is not served for another -- each listing is the one a server without a cache gives for that selector."""
+    import os
+    import listing
+    tree = pyg.Tree()
+    try:
+        for n in ("alpha.txt", "beta.txt", "sub/x.txt"):
+            tree.write("docs/" + n, b"x\n")
+        tree.write("mailonly/box.mbox", b"From a@b Sat Jan  5 09:43:01 2002\nSubject: one\n\nbody\n\n")
+        os.symlink(".", tree.path("docs/current"))
+        os.symlink("docs", tree.path("alias"))
+        os.symlink("mailonly", tree.path("mailalias"))
+        cfg_c = pyg.make_config(tree.root)                                      # shipped lifetime
+        cfg_0 = pyg.make_config(tree.root, **{"handlers.dir.DirHandler|cachetime": "0"})
+        order = ["/docs/current", "/docs", "/alias", "/docs", "/docs/current/current", "/docs/current", "/mailalias", "/mailonly", "/mailalias"]
+        cachefile = cfg_c.get("handlers.dir.DirHandler", "cachefile")
+        for sel in order:
+            got = listing.real_rows("gopher", False, cfg_c, sel)[0]
+            # what a server without a cache says (the cache files put aside while it is asked)
+            saved = {}
+            for dp, dn, fn in os.walk(tree.root):
+                if cachefile.encode() in [os.fsencode(f) for f in fn]:
+                    pth = os.path.join(dp, os.fsencode(cachefile) if isinstance(dp, bytes) else cachefile)
+                    saved[pth] = (open(pth, "rb").read(), os.stat(pth))
+                    os.unlink(pth)
+            want = listing.real_rows("gopher", False, cfg_0, sel)[0]
+            for dp, dn, fn in os.walk(tree.root):
+                for f in fn:
+                    if os.fsdecode(f) == cachefile:
+                        os.unlink(os.path.join(dp, f))
+            for pth, (data, st) in saved.items():
+                with open(pth, "wb") as fh:
+                    fh.write(data)
+                os.utime(pth, ns=(st.st_atime_ns, st.st_mtime_ns))
+            res.evaluations += 1
+            res.nontrivial.add(("alias", sel))
+            if got != want:
+                res.violation("C10:cache-served-for-another-selector", "a listing cached through one selector of a directory is served for another",
+                              {"selector": sel, "asked_before": order[:order.index(sel)]}, observed=(got or b"")[:300], required=(want or b"")[:300],
+                              replay={"alias": True, "selector": sel})
+    finally:
+        tree.close()
